@@ -196,7 +196,12 @@ func vRangeLimit(withLimit bool) {
 		slo, shi, elo, ehi = 0, 1, 3, 4
 	}
 	qs := base + tfSec*rt.Fix(rt.Int("q_start_slot", slo, shi)) + rt.Int("q_start_sec", 0, tfSec-1)
-	qe := base + tfSec*rt.Fix(rt.Int("q_end_slot", elo, ehi)) + rt.Int("q_end_sec", 0, tfSec-1)
+	qeSlot := rt.Fix(rt.Int("q_end_slot", elo, ehi+1))
+	openEnd := qeSlot == ehi+1 // the end of the range is left at planner.MaxTime ("from start onwards")
+	if openEnd {
+		qeSlot = ehi
+	}
+	qe := base + tfSec*qeSlot + rt.Int("q_end_sec", 0, tfSec-1)
 	var qsn, qen int64
 	if variable {
 		qsn, qen = rt.Int("q_start_ns", 0, 999999999), rt.Int("q_end_ns", 0, 999999999)
@@ -212,6 +217,10 @@ func vRangeLimit(withLimit bool) {
 		}
 	}
 	start, end := time.Unix(qs, qsn).UTC(), time.Unix(qe, qen).UTC()
+	if openEnd {
+		end = planner.MaxTime
+		qe, qen = 1<<62, 0
+	}
 	res, err := e.query(tbk, useRange, start, end, limit, dir)
 	rt.Assert(err == nil, "restricted-query-without-error")
 	got := vRowsOf(res, variable)
